@@ -5,6 +5,7 @@ import (
 	"fmt"
 	"strings"
 
+	"github.com/libsv/go-bk/base58"
 	"github.com/libsv/go-bk/crypto"
 )
 
@@ -72,6 +73,12 @@ func validA58(a58 []byte) (bool, error) {
 
 	if a.embeddedChecksum() != a.computeChecksum() {
 		return false, ErrEncodingChecksumFailed
+	}
+
+	// only the canonical Base58 form is an address: the same 25 bytes written with a
+	// missing or an extra leading '1' decode to the same number
+	if base58.Encode(a[:]) != string(a58) {
+		return false, ErrInvalidAddressLength
 	}
 
 	return true, nil
